@@ -297,9 +297,29 @@ class NumpyCodegenMapper(CachedMapper[str, Never, []]):
                                  BinaryOpType.BITWISE_XOR,
                                  BinaryOpType.BITWISE_AND,
                                  }:
-                rhs = ast.BinOp(left=_rec_ary_or_constant(hlo.x1),
+                def _rec_arith_operand(e: ArrayOrScalar,
+                                       other: ArrayOrScalar) -> ast.expr:
+                    ast_e = _rec_ary_or_constant(e)
+                    if (not isinstance(e, Array | np.generic)
+                            and isinstance(other, Array)
+                            and np.result_type(other.dtype, e) != expr.dtype
+                            # (true division of integers gives float64 anyway)
+                            and not (hlo.binary_op == BinaryOpType.TRUEDIV
+                                     and np.result_type(other.dtype, e).kind
+                                     in "iub")):
+                        # *e* was a typed NumPy scalar when the expression was
+                        # built (NumPy hands it to the reflected operator as a
+                        # Python scalar). Emitted as a ("weak") Python scalar it
+                        # would not promote *other* to the result dtype.
+                        ast_e = ast.Call(
+                            ast.Attribute(ast.Name(self.numpy),
+                                          f"{expr.dtype.type.__name__}"),
+                            args=[ast_e], keywords=[])
+                    return ast_e
+
+                rhs = ast.BinOp(left=_rec_arith_operand(hlo.x1, hlo.x2),
                                 op=SIMPLE_BINOP_TO_AST_OP[hlo.binary_op](),
-                                right=_rec_ary_or_constant(hlo.x2))
+                                right=_rec_arith_operand(hlo.x2, hlo.x1))
             elif hlo.binary_op in {BinaryOpType.EQUAL, BinaryOpType.NOT_EQUAL,
                                    BinaryOpType.LESS, BinaryOpType.LESS_EQUAL,
                                    BinaryOpType.GREATER,
